@@ -82,8 +82,10 @@ fn probe(p: P, stage: &Cell<u8>) -> Option<Out> {
 	let f1 = flags();
 	let bcast = nodes[0].tx_broadcaster.txn_broadcast();
 	if p.trigger != 0 {
-		if !f1[2] { return Some(Out { cases: vec![], viol: vec![] }); } // never triggered: nothing to compare (counted by the caller)
-		if !p.anchors {
+		// never triggered (holder_tx_signed not set within 250 blocks): the scenario goes on as a control, and the flag-independent
+		// oracle below still watches for a monitor-initiated close that preceded the commitment_signed
+		if !f1[2] { out.cases.push((String::new(), String::new(), "not-triggered".into())); }
+		if !p.anchors && f1[2] {
 			let kind = if p.trigger == 1 { "timeout" } else { "queue0" };
 			out.cases.push((format!("trig {} {} {}", kind, b(f0[3]), b(f0[4])), format!("signed={} queued={} nfua={}", b(f1[2]), b(!bcast.is_empty()), b(f1[5])),
 				format!("trig:{}:manual={}:seen={}:queued={}", kind, f0[3], f0[4], !bcast.is_empty())));
@@ -105,6 +107,7 @@ fn probe(p: P, stage: &Cell<u8>) -> Option<Out> {
 	nodes[0].node.handle_commitment_signed_batch_test(b_id, &upd.commitment_signed);
 	let mon_holder = holder_no();
 	let mut raa = [false, false];
+	let mut closed_by_monitor = false;
 	let drain = |slot: usize, raa: &mut [bool; 2]| {
 		for ev in nodes[0].node.get_and_clear_pending_msg_events() { if let MessageSendEvent::SendRevokeAndACK { .. } = ev { raa[slot] = true; } }
 	};
@@ -113,11 +116,20 @@ fn probe(p: P, stage: &Cell<u8>) -> Option<Out> {
 	for _ in 0..3 {
 		let pending = nodes[0].chain_monitor.chain_monitor.list_pending_monitor_updates().get(&cid).cloned().unwrap_or_default();
 		for id in pending { let _ = nodes[0].chain_monitor.chain_monitor.channel_monitor_updated(cid, id); }
-		nodes[0].node.get_and_clear_pending_events();
+		for ev in nodes[0].node.get_and_clear_pending_events() {
+			if let lightning::events::Event::ChannelClosed { reason, .. } = ev {
+				if matches!(reason, lightning::events::ClosureReason::HTLCsTimedOut { .. } | lightning::events::ClosureReason::HolderForceClosed { .. }) { closed_by_monitor = true; }
+			}
+		}
 		drain(1, &mut raa);
 	}
 	let raa_ever = raa[0] || raa[1];
 	let revoked_after = revoked_of();
+	// flag-independent: no block was connected and nothing was force-closed by the user after the trigger, so a monitor-initiated
+	// ChannelClosed means the monitor had queued its force-close event (= decided to go on chain) BEFORE the commitment_signed
+	if closed_by_monitor && raa_ever && !closed_flags {
+		out.viol.push(format!("the ChannelMonitor had decided to go on chain (its HolderForceClosed / HTLCsTimedOut event was queued) WITHOUT freezing the channel (funding_spend_seen={} lockdown_from_offchain={} holder_tx_signed={}): the commitment_signed handled next was answered with revoke_and_ack for holder commitment {} (signer's last revoked holder commitment {} -> {}). Scenario: {}", f1[0], f1[1], f1[2], holder_before, revoked_before, revoked_after, describe(&p)));
+	}
 	if closed_flags {
 		if raa_ever || revoked_after != revoked_before {
 			out.viol.push(format!("the ChannelMonitor had gone on chain with holder commitment {} (flags funding_spend_seen={} lockdown_from_offchain={} holder_tx_signed={}; {} transaction(s) handed to the broadcaster) and the node then REVOKED it: a commitment_signed handled before the manager processed the monitor's HolderForceClosed event was answered with revoke_and_ack (at once: {}, later: {}), signer's last revoked holder commitment {} -> {}, no_further_updates_allowed() said {}. Scenario: {}",
@@ -160,9 +172,11 @@ fn main() {
 		let stage = Cell::new(0u8);
 		match guarded(std::panic::AssertUnwindSafe(|| probe(p, &stage))) {
 			Ok(Some(o)) => {
-				if o.cases.is_empty() && o.viol.is_empty() { not_triggered += 1; *rec.classes.entry(format!("not-triggered:funding={}:trigger={}:anchors={}", p.funding, p.trigger, p.anchors)).or_insert(0) += 1; }
 				for v in o.viol { rec.oracle_fail(v); }
-				for (op, ans, class) in o.cases { rec.case(&op, &ans, &class, true); }
+				for (op, ans, class) in o.cases {
+					if op.is_empty() { not_triggered += 1; *rec.classes.entry(format!("not-triggered:funding={}:trigger={}:anchors={}", p.funding, p.trigger, p.anchors)).or_insert(0) += 1; continue; }
+					rec.case(&op, &ans, &class, true);
+				}
 			},
 			Ok(None) => { setup_failed += 1; *rec.classes.entry(format!("setup-failed:funding={}:anchors={}", p.funding, p.anchors)).or_insert(0) += 1; },
 			Err(e) => {
